@@ -120,3 +120,50 @@ theorem C14_pop_event_generated (fuel : Nat) (hp hp' : List Ev) (e : Ev) (h : Is
   rw [hpop] at h1
   obtain ⟨a, b, c, _, d⟩ := heapPopLive_spec fuel hp hp' e h (by simpa [popConv] using h1.symm)
   exact ⟨a, b, c, d⟩
+
+/-! ### `peak_ahead`: `nsmallest` over the heap array = the first live events of the model's sorted list -/
+
+theorem pairwise_trichotomy {α : Type} {R : α → α → Prop} {l : List α} (h : l.Pairwise R) {a b : α} (ha : a ∈ l) (hb : b ∈ l) :
+    a = b ∨ R a b ∨ R b a := by
+  induction h with
+  | nil => cases ha
+  | cons hx _ ih =>
+    rcases List.mem_cons.mp ha with rfl | ha' <;> rcases List.mem_cons.mp hb with rfl | hb'
+    · exact Or.inl rfl
+    · exact Or.inr (Or.inl (hx _ hb'))
+    · exact Or.inr (Or.inr (hx _ ha'))
+    · exact ih ha' hb'
+
+/-- sorting any arrangement of a strictly sorted event list (stable sort that only uses `<`) gives back the sorted list -/
+theorem mergeSort_eq_of_sorted {l s : List Ev} (hp : l.Perm s) (hs : Sorted s) :
+    l.mergeSort (fun a b => !Ev.lt b a) = s := by
+  have asym : ∀ a b : Ev, a.lt b = true → b.lt a = false := ev_swo.asymm
+  apply List.Perm.eq_of_pairwise (le := fun a b => (!Ev.lt b a) = true)
+  · intro a b ha hb h1 h2
+    have ha' : a ∈ s := hp.mem_iff.mp ((List.mergeSort_perm _ _).mem_iff.mp ha)
+    rcases pairwise_trichotomy hs ha' hb with h | h | h
+    · exact h
+    · simp [h] at h2
+    · simp [h] at h1
+  · exact List.pairwise_mergeSort (le := fun a b => !Ev.lt b a)
+      (fun a b c h1 h2 => by
+        simp only [Bool.not_eq_true'] at h1 h2 ⊢
+        exact ev_swo.2 c b a h2 h1)
+      (fun a b => by
+        cases h : Ev.lt b a
+        · simp
+        · simp [asym b a h]) l
+  · exact hs.imp fun {a b} h => by simp [asym a b h]
+  · exact (List.mergeSort_perm _ _).trans hp
+
+/-- `EventList.peak_ahead` as generated (`nsmallest` over the live events of the heap array) = the model's `peek` on the
+    sorted list that the array refines: `IndexError` on an empty list, else the first `n` live events in execution order. -/
+theorem C14_gen_peak_ahead_eq_model (hp s : List Ev) (r : Refines hp s) (n : Nat) :
+    GenFn.peak_ahead ⟨hp⟩ (n : Int) =
+      if hp.isEmpty then .error Py.Err.Index else .ok ((s.filter Ev.live).take n) := by
+  have hlive : (fun e : Ev => !GenFn.CANCELED e) = Ev.live := funext fun e => by simp [C14_gen_CANCELED_eq_model, Ev.live]
+  have hsort : (hp.filter Ev.live).mergeSort (fun a b => !Ev.lt b a) = s.filter Ev.live :=
+    mergeSort_eq_of_sorted (r.perm.filter _) (r.sorted.sublist List.filter_sublist)
+  simp only [GenFn.peak_ahead, C14_gen_is_empty_eq_model, C14_gen_len_eq_model, gen_lt_eq, hlive, Py.nsmallest,
+    Int.toNat_natCast, hsort]
+  all_goals (cases hp <;> simp <;> (try omega))
